@@ -49,6 +49,13 @@ Proof.
   apply G2. left. exact H.
 Qed.
 
+(* a pending timer (slot ACTIVE) has its heap entry, and only pending timers have one *)
+Lemma active_timer_on_heap : forall f beh h rnd i t, fx_sigdel f = true -> good_rand rnd ->
+  nth_error (timers (run_history_fx f beh h rnd)) i = Some t -> (t_exp t <> None <-> t_state t = Active).
+Proof.
+  intros f beh h rnd i t F G N. pose proof (run_history_inv f beh h rnd F G) as (_ & (T1 & _) & _). exact (T1 i t N).
+Qed.
+
 (* ------------------------------------------------------------------ what the delete calls log when they return 0 *)
 Lemma job_del_logs : forall p key st, fst (job_del p key st) = 0 ->
   exists u k, out (snd (job_del p key st)) = EvDel 0 u :: out st /\ k = key /\
@@ -75,6 +82,18 @@ Lemma signal_del_logs : forall h st s, h <> 0 -> sig_find h st = Some s -> In (E
 Proof.
   intros h st s H0 F. unfold signal_del. destruct (h =? 0) eqn:E; [apply Z.eqb_eq in E; contradiction|].
   rewrite F. cbn. auto.
+Qed.
+
+(* signal handles are raw pointers (qb_loop_signal_handle is a void pointer): the API can not validate them; their use after the
+   registration was freed is outside the contract and is what the model marks with EvUaf 1 / 2 / 4.  With a handle whose
+   registration exists neither call touches freed memory *)
+Lemma signal_ops_live_no_uaf : forall p g k h st s, sig_find h st = Some s ->
+  uaf (snd (signal_del h st)) = uaf st /\ uaf (snd (signal_mod p g k h st)) = uaf st.
+Proof.
+  intros p g k h st s F. unfold signal_del, signal_mod. destruct (h =? 0); [split; reflexivity|]. rewrite F. cbn [snd]. split; [|reflexivity].
+  destruct (fx_sigdel (fx st)); [reflexivity|]. destruct (find _ _) as [q|]; [|reflexivity].
+  cbn [uaf set_sigs emit set_out]. unfold item_del.
+  destruct (in_jobq q High st); [reflexivity|]. destruct (in_jobq q Med st); [reflexivity|]. destruct (in_jobq q Low st); reflexivity.
 Qed.
 
 (* ------------------------------------------------------------------ stale timer handles and stale epoll data *)
@@ -133,7 +152,7 @@ Definition hist_sigdel : list cmd :=
    CmdRun [env0 [10] [(SIGPIPE_FD, 1)] false; env0 [10] [(SIGPIPE_FD, 1)] false; env0 [] [] true];
    CmdOp (OSigDel 100);
    CmdRun [env0 [] [] false; env0 [] [] false; env0 [] [] false; env0 [] [] false]].
-Definition fixes_sigdel_missing : fixes := {| fx_polladd := true; fx_sigdel := false; fx_runtodo := false |}.
+Definition fixes_sigdel_missing : fixes := {| fx_polladd := true; fx_sigdel := false; fx_runtodo := false; fx_pollreuse := true |}.
 Lemma signal_del_refuted : exists post pre u,
   out (run_history_fx fixes_sigdel_missing beh_none hist_sigdel []) = post ++ EvDel 3 u :: pre /\ In (EvInv 3 u) post.
 Proof.
@@ -154,7 +173,7 @@ Definition hist_polladd : list cmd :=
   [CmdOp (OPollAdd Med 104 1 1); CmdOp (OPollAdd Med 105 1 2); CmdOp (OPollDel 104); CmdRun [env0 [] [] false];
    CmdOp (OPollAdd Med 105 1 3); CmdOp (OPollDel 105);
    CmdRun [env0 [] [(105, 1)] false; env0 [] [(105, 1)] false; env0 [] [(105, 1)] false]].
-Definition fixes_polladd_missing : fixes := {| fx_polladd := false; fx_sigdel := true; fx_runtodo := false |}.
+Definition fixes_polladd_missing : fixes := {| fx_polladd := false; fx_sigdel := true; fx_runtodo := false; fx_pollreuse := false |}.
 Definition last_poll_del_result (l : list ev) : option Z :=
   match find (fun e => match e with EvRet 8 _ => true | _ => false end) l with Some (EvRet _ r) => Some r | _ => None end.
 Definition cb_after_last_poll_del (l : list ev) : nat :=
@@ -184,9 +203,32 @@ Proof. vm_compute. reflexivity. Qed.
 Lemma kernel_model_probe : LOOP_KERNEL_EPOLL_AS_MODELLED = 1.
 Proof. reflexivity. Qed.
 
-(* the tree the constants were generated from contains both repairs *)
-Lemma tree_repaired : fx_sigdel tree_fixes = true /\ fx_polladd tree_fixes = true.
-Proof. split; reflexivity. Qed.
+(* a descriptor closed without poll_del, its number added again (the kernel accepts: close dropped the registration): as found,
+   two live entries share the number, poll_del(fd) returns 0 after retiring the STALE one and the new entry's queued callback
+   still runs; repaired, the second add is refused with -EEXIST *)
+Definition hist_fdreuse : list cmd :=
+  [CmdOp (OPollAdd Med 100 1 1); CmdOp (OClose 100); CmdOp (OPollAdd Low 100 1 2);
+   CmdRun [env0 [] [(100, 1)] false; env0 [] [] true]; CmdOp (OPollDel 100);
+   CmdRun [env0 [] [] false; env0 [] [] false; env0 [] [] false; env0 [] [] false]].
+Definition fixes_pollreuse_missing : fixes := {| fx_polladd := true; fx_sigdel := true; fx_runtodo := true; fx_pollreuse := false |}.
+Lemma fd_reuse_refuted :
+  last_poll_del_result (out (run_history_fx fixes_pollreuse_missing beh_none hist_fdreuse [])) = Some 0 /\
+  cb_after_last_poll_del (out (run_history_fx fixes_pollreuse_missing beh_none hist_fdreuse [])) = 1%nat.
+Proof. vm_compute. split; reflexivity. Qed.
+Lemma fd_reuse_repaired_witness :
+  cb_after_last_poll_del (out (run_history_fx fixes_all beh_none hist_fdreuse [])) = 0%nat /\
+  existsb (fun e => match e with EvRet 6 r => r =? - LOOP_EEXIST | _ => false end) (out (run_history_fx fixes_all beh_none hist_fdreuse [])) = true.
+Proof. vm_compute. split; reflexivity. Qed.
+Lemma poll_add_refuses_live_fd : forall g p fd ev key st, fx_pollreuse (fx st) = true ->
+  existsb (fd_is_live fd) (polls st) = true -> poll_add_gen g p fd ev key st = (- LOOP_EEXIST, st).
+Proof. intros g p fd ev key st F E. unfold poll_add_gen. rewrite F, E. reflexivity. Qed.
+(* and whenever an add goes through no live entry carries that number *)
+Lemma poll_add_ok_means_fresh_fd : forall g p fd ev key st, fx_pollreuse (fx st) = true ->
+  fst (poll_add_gen g p fd ev key st) = 0 -> existsb (fd_is_live fd) (polls st) = false.
+Proof.
+  intros g p fd ev key st F R. destruct (existsb (fd_is_live fd) (polls st)) eqn:E; [|reflexivity].
+  rewrite (poll_add_refuses_live_fd g p fd ev key st F E) in R. cbn in R. unfold LOOP_EEXIST in R. lia.
+Qed.
 
 (* non-vacuity: a history with deletions of queued items from inside callbacks, signals, a negative return *)
 Definition ex_beh8 : behaviour := fun key n =>
